@@ -1,12 +1,69 @@
 (* Props/C18.v — C18: Walk visits every node of the tree once with balanced Enter/Exit.
-   Statements only; each is closed by [exact] of a lemma proved in Walk/Proofs.v. *)
+   Statements only; each is closed by [exact] of a lemma proved in Walk/*.v.
+
+   gen_spec = the tables translator T2 generates from js/ast.go and js/walk.go on every run
+   (Gen/WalkSchema.v).  walk_p is the executable model of js.Walk (Walk/Model.v): it returns the
+   sequence of Enter/Exit calls and whether Go would have panicked.  The visitor is ARBITRARY:
+   [enter h v p a fl] is what the visitor object v answers to Enter for the node at path p of type a
+   after having seen the calls h (None = nil).  Trees are identified with what Go holds in memory by
+   the exporter of harness/c18.go (checked on every run against the real Walk). *)
 From Coq Require Import List Arith Bool Permutation.
-From Verif Require Import Walk.Schema Walk.Model Gen.WalkSchema Walk.Harness Walk.Proofs.
+From Verif Require Import Walk.Schema Walk.Model Walk.Trace Gen.WalkSchema Walk.Harness Walk.Proofs.
 Import ListNotations.
 
-(* Finite check on the generated file (translator T2 over js/ast.go and js/walk.go): for every node
-   type the fields visited by its switch arm are a permutation of its node-valued fields. *)
+(* Finite check on the generated file: for every node type the fields visited by its switch arm are
+   a permutation of its node-valued fields (scope tables and Var.Link excluded by name, see the header
+   of Gen/WalkSchema.v). *)
 Theorem walk_covers_schema :
   forallb (fun t => perm_eqb (visited gen_spec t) (node_fields gen_spec t)) (seq 0 (ntypes gen_spec)) = true.
 Proof. exact gen_covers_fields. Qed.
 Print Assumptions walk_covers_schema.
+
+(* Every visit has a shape that is safe for the kind of its field (pointer fields under a nil guard,
+   struct fields by address, ...) and every type with children has an arm. *)
+Theorem walk_arms_wellformed :
+  forallb (fun t => forallb (visit_ok gen_spec t) (visits_of gen_spec t) &&
+                    match arm_of gen_spec t with
+                    | Some _ => true
+                    | None => match fields_of gen_spec t with [] => true | _ => false end
+                    end)
+          (seq 0 (ntypes gen_spec)) = true.
+Proof. exact gen_arms_normal. Qed.
+Print Assumptions walk_arms_wellformed.
+
+(* For ALL trees (well-typed or not) and all visitors the walk never panics and never hands the
+   visitor a typed nil or a struct copy made by a wrong call shape: the faithful model equals the
+   plain walk. *)
+Theorem walk_no_panic :
+  forall (V : Type) (enter : list (event V) -> V -> path -> ty -> flavour -> option V) (v0 : V) (t : tree),
+    walk_p gen_spec V enter v0 t = (walk gen_spec V enter v0 t, false).
+Proof. exact walk_no_panic_proof. Qed.
+Print Assumptions walk_no_panic.
+
+(* Descend everywhere: the nodes passed to Enter are exactly the nodes of the tree, each once. *)
+Theorem walk_visits_each_once :
+  forall (V : Type) (enter : list (event V) -> V -> path -> ty -> flavour -> option V) (v0 : V) (t : tree),
+    (forall h v p a fl, enter h v p a fl <> None) ->
+    well_typed gen_spec t = true ->
+    Permutation (entered V (fst (walk_p gen_spec V enter v0 t))) (all_nodes gen_spec t) /\
+    NoDup (all_nodes gen_spec t).
+Proof. exact walk_visits_each_once_proof. Qed.
+Print Assumptions walk_visits_each_once.
+
+(* Any visitor, any tree: the trace is well nested (see [bal] in Walk/Trace.v): Exit exactly for the
+   nodes whose Enter returned a visitor, delivered to that visitor, after everything below the node;
+   the children are entered through the visitor their parent's Enter returned; nothing happens below a
+   node whose Enter returned nil. *)
+Theorem walk_enter_exit_balanced :
+  forall (V : Type) (enter : list (event V) -> V -> path -> ty -> flavour -> option V) (v0 : V) (t : tree),
+    bal V enter v0 [] (fst (walk_p gen_spec V enter v0 t)).
+Proof. exact walk_balanced_proof. Qed.
+Print Assumptions walk_enter_exit_balanced.
+
+(* Any visitor: whatever is passed to Enter or Exit is a node of the tree. *)
+Theorem walk_nothing_else :
+  forall (V : Type) (enter : list (event V) -> V -> path -> ty -> flavour -> option V) (v0 : V) (t : tree) e,
+    well_typed gen_spec t = true ->
+    In e (fst (walk_p gen_spec V enter v0 t)) -> In (e_path e) (all_nodes gen_spec t).
+Proof. exact walk_nothing_else_proof. Qed.
+Print Assumptions walk_nothing_else.
